@@ -11,10 +11,10 @@ def main():
     ap.add_argument('--only', default=None, help='substring filter on query names (debugging)')
     a = ap.parse_args()
     seed = int(os.environ.get('VERIF_SEED', '1') or 1)
-    mod = importlib.import_module('vf.props.' + a.pid)
     if a.replay:
         from . import replay
         sys.exit(replay.run(a.pid, a.replay))
+    mod = importlib.import_module('vf.props.' + a.pid)
     ctx = Ctx(a.pid, a.tier, seed); ctx.only = a.only
     try:
         rc = mod.run(ctx)
